@@ -65,8 +65,7 @@ Definition table (g : graph) : list msg := flat_map all_msgs g.
 Definition find_msg (g : graph) (a : addr) : option msg :=
   find (fun m => String.eqb (m_addr m) a) (table g).
 
-(* collections.ChainMap of the per-proto resource_messages: the first proto that knows the type wins;
-   inside one proto (an OrderedDict built from a chain) the last binding wins *)
+(* inside one proto (an OrderedDict built from a chain) the last binding of a type wins *)
 Fixpoint assoc_last {A} (k : string) (l : list (string * A)) : option A :=
   match l with
   | [] => None
@@ -75,11 +74,20 @@ Fixpoint assoc_last {A} (k : string) (l : list (string * A)) : option A :=
                      | None => if String.eqb k k' then Some v else None
                      end
   end.
-Fixpoint res_lookup (g : graph) (t : string) : option addr :=
-  match g with
+(* API.build (third pass, omitting mode):
+     a collections.ChainMap whose layers are, for every proto in turn, the entries of proto.resource_messages whose
+     message has a non-empty address (m.meta.address.proto), followed by every proto.resource_messages as it is:
+   the leading layers hold, file by file, the declarations by real messages (non-empty address); the plain per-file
+   tables follow, so a file-level definition (address-less synthetic message) is found only when no message of any
+   file carries the type.  The first layer that knows the type wins. *)
+Definition real_res (f : file) : list (string * addr) := filter (fun p => negb (is_empty (snd p))) (fi_res f).
+Fixpoint lookup_layers (tabs : list (list (string * addr))) (t : string) : option addr :=
+  match tabs with
   | [] => None
-  | f :: g' => match assoc_last t (fi_res f) with Some a => Some a | None => res_lookup g' t end
+  | tb :: r => match assoc_last t tb with Some a => Some a | None => lookup_layers r t end
   end.
+Definition res_lookup (g : graph) (t : string) : option addr :=
+  lookup_layers (map real_res g ++ map fi_res g) t.
 
 (* ---------------------------------------------------------------- the address graph *)
 (* Field.add_to_address_allowlist: message, enum, resource reference resolved through the table *)
